@@ -82,6 +82,7 @@ def gen_ops(ctx):
     # std::vector two-step sequences: first fill (or a caller-prepared vector), then an ACCUMULATING fill, across channel depths
     ops.append("sv g8 g16 3 3 0 | | 1 2 3 4 5 6 7 8 9 | 1 2 3 400 500 600 7 8 9")
     ops.append("sv - g8 2 2 4 | 3 0 2 1 | 0 0 0 0 | 1 1 3 200")
+    ops.append("sv g16 g8 3 1 0 | | 5 600 6 | 5 6 7")                                   # witness of the fixed finding vector-accumulate-shrinks
     for _ in range(300 if th else 90):
         vt1, vt2 = r.choice(["g8", "g16", "-"]), r.choice(["g8", "g16"])
         w, h = r.range(0, 5), r.range(0, 5); n = w * h
